@@ -1137,7 +1137,7 @@ func (x *c07Ctx) specialMuts() []c07Mut {
 		out = append(out, c07Mut{Class: "forge", Kind: k})
 	}
 	if len(T.ContractRequests) > 0 {
-		out = append(out, c07Mut{Class: "forge", Kind: "contract-claim"})
+		out = append(out, c07Mut{Class: "forge", Kind: "contract-claim"}, c07Mut{Class: "forge", Kind: "contract-claim-front"})
 	}
 	if x.acct != "" {
 		for _, k := range []string{"acct-outsider", "acct-below", "acct-init-outsider"} {
@@ -1501,14 +1501,25 @@ func (x *c07Ctx) applySpecial(mut c07Mut) c07Special {
 				return nil, nil
 			}))
 			res.tx = f
-		case "contract-claim":
+		case "contract-claim", "contract-claim-front":
 			if len(m.ContractRequests) == 0 {
 				res.skip = "no contract"
 				return res
 			}
-			addIn()
 			claimed, _ := xmodel.ParseContractUtxoInputs(m)
-			claimed = append(claimed, c07InputOf(u))
+			if mut.Kind == "contract-claim-front" {
+				// the victim's output in FRONT of the contract's own declared inputs (and of the inputs)
+				if len(claimed) == 0 {
+					res.skip = "contract spends nothing"
+					return res
+				}
+				m.TxInputs = append([]*protos.TxInput{c07InputOf(u)}, m.TxInputs...)
+				m.TxOutputs = append(m.TxOutputs, &protos.TxOutput{ToAddr: []byte(atk.Address), Amount: u.Amount.Bytes()})
+				claimed = append([]*protos.TxInput{c07InputOf(u)}, claimed...)
+			} else {
+				addIn()
+				claimed = append(claimed, c07InputOf(u))
+			}
 			val, _ := xmodel.MarshalMessages(claimed)
 			done := false
 			for _, oe := range m.TxOutputsExt {
